@@ -438,15 +438,21 @@ def fold_loop(I, st, pipe, env):
         I.assign(st.target, val, benv)
         nw = len(I.writes)
         saved_rec, I.recording = I.recording, []
+        saved_reads, I.read_lists = I.read_lists, []
         I.pointwise += 1
         I.merge_ifs += 1
         try:
             I.exec_block(st.body, benv)
             recs = I.recording
+            reads = I.read_lists
         finally:
             I.pointwise -= 1
             I.merge_ifs -= 1
             I.recording = saved_rec
+            I.read_lists = saved_reads
+        if any(r[0] is x for r in recs for x in reads):
+            # the body reads a list it also appends to: what it reads depends on the earlier iterations (not a per-element effect)
+            raise Unsupported('a loop over a symbolic sequence reads a list it appends to')
         if any(not w[3] for w in I.writes[nw:]):
             raise Unsupported('heap write inside a loop over a symbolic sequence')
         return benv, recs
